@@ -332,6 +332,7 @@ type refClient struct {
 	enc     []byte      // undecrypted bytes
 	plain   []byte      // decrypted, unparsed bytes
 	timeout time.Duration
+	expect  bool       // plaintext requests with a body are sent with "Expect: 100-continue": head, wait for the interim answer, body
 	seg     *rand.Rand // when set, every request is delivered in several TCP segments
 	Events  []refMsg // EVENT messages received so far (in order)
 	broken  string
@@ -467,10 +468,31 @@ func (cl *refClient) Do(method, target, ctype string, body []byte) (*refMsg, err
 	if body != nil || method == "POST" || method == "PUT" {
 		fmt.Fprintf(&sb, "Content-Length: %d\r\n", len(body))
 	}
-	sb.WriteString("\r\n")
-	sb.Write(body)
-	if err := cl.send(sb.Bytes()); err != nil {
-		return nil, err
+	if cl.expect && cl.sess == nil && len(body) > 0 {
+		sb.WriteString("Expect: 100-continue\r\n\r\n")
+		if err := cl.send(sb.Bytes()); err != nil {
+			return nil, err
+		}
+		// the interim answer
+		deadline := time.Now().Add(cl.timeout)
+		for !bytes.Contains(cl.plain, []byte("\r\n\r\n")) {
+			if ok, err := cl.fill(time.Until(deadline)); err != nil || !ok {
+				return nil, fmt.Errorf("waiting for 100 Continue: %v (got %q)", err, trunc(string(cl.plain), 60))
+			}
+		}
+		if !bytes.HasPrefix(cl.plain, []byte("HTTP/1.1 100")) {
+			return nil, fmt.Errorf("expected 100 Continue, got %q", trunc(string(cl.plain), 60))
+		}
+		cl.plain = cl.plain[bytes.Index(cl.plain, []byte("\r\n\r\n"))+4:]
+		if err := cl.send(body); err != nil {
+			return nil, err
+		}
+	} else {
+		sb.WriteString("\r\n")
+		sb.Write(body)
+		if err := cl.send(sb.Bytes()); err != nil {
+			return nil, err
+		}
 	}
 	for {
 		m, err := cl.next(cl.timeout)
